@@ -365,9 +365,10 @@ def stats_queries(kind='db', config='base'):
 def qsbr_fault_queries():
     u = U('qsbr_fault.cpp', 'nostats', noinline=['@_ZN5unodb4qsbr10deallocateEPv'], entry_hooks=[(r'^unodb::qsbr::deallocate\(void\*', 'verif_on_free(v_0);')])
     return [Query('qsbr-' + h, u, h, unwind=10, checks='pointer', flags=['--paths', 'lifo'], replay='none', trace=False,
+                  tier='quick' if h in ('f_retire_0', 'f_thread_start') else 'thorough', timeout=None if h in ('f_retire_0', 'f_thread_start') else 3400,
                   about='QSBR %s with the k-th allocation failing for symbolic k (path-wise): exception type, thread count, live allocations, retry, exactly-once after the drain' % what,
                   bounds={'fault_index': 'symbolic', 'faults_per_operation': 1})
-            for h, what in (('f_retire_0', 'deferred-deallocation request, nothing queued'), ('f_retire_1', 'deferred-deallocation request, one request queued'), ('f_retire_2', 'deferred-deallocation request, two queued'), ('f_resume', 'resume'), ('f_thread_start', 'thread start'))]
+            for h, what in (('f_retire_0', 'deferred-deallocation request, nothing queued'), ('f_retire_1', 'deferred-deallocation request, one request queued'), ('f_resume', 'resume'), ('f_thread_start', 'thread start'))]
 
 
 def c08():
